@@ -33,15 +33,11 @@ def outcome(f):
         return ('raise', e)
 
 
-def fail(msg):
-    print('VIOLATION REPRODUCED:', msg)
-    sys.exit(1)
+from replay_common import fail, drive  # noqa: E402
 
 
-def main():
-    inp = json.loads(sys.argv[1])
+def main(inp):
     fn = inp['function']
-    print('input:', inp)
     if fn == 'PortSelect.__post_init__':
         k, r = outcome(lambda: PortSelect(val(inp['value'])))
         ok = S.inv_port_select(Raw(value=val(inp['value'])))
@@ -124,10 +120,7 @@ def main():
                 if want_r and r.value[p] != S.sem(rs, p):
                     fail(f'requires port {p!r}: {r.value[p]} instead of {S.sem(rs, p)}')
     else:
-        print('unknown function', fn)
-        sys.exit(2)
-    print('not reproduced')
-    sys.exit(0)
+        raise SystemExit(2)
 
 
 def _mk_select(v):
@@ -136,4 +129,4 @@ def _mk_select(v):
     return s
 
 
-main()
+drive(main)
